@@ -45,13 +45,14 @@ type c07case struct {
 	Scripts  int      `json:"lua_scripts"`
 	Fail     string   `json:"injected_failure,omitempty"` // "" | err | busykey
 	FailKey  string   `json:"failing_key,omitempty"`
+	Inputs   int      `json:"input_files,omitempty"`
 	Passwd   string   `json:"-"`
 	KeyNames []string `json:"-"`
 }
 
 const c07sentinel = "S3NT-tgt-c07"
 
-func genC07file(rng *prng.R, c *c07case) ([]byte, []rdbgen.Record) {
+func genC07file(rng *prng.R, c *c07case, tag string) ([]byte, []rdbgen.Record) {
 	f := &rdbgen.File{Version: 9}
 	ndb := len(c.DBs)
 	for i := 0; i < c.Keys; i++ {
@@ -71,12 +72,12 @@ func genC07file(rng *prng.R, c *c07case) ([]byte, []rdbgen.Record) {
 		if rng.Chance(1, 3) {
 			prefix = "skip:"
 		}
-		ks := &rdbgen.KeySpec{DB: uint32(db), Key: []byte(fmt.Sprintf("%s%d:%s", prefix, i, rng.Alpha(3, "abcxyz"))), Val: v, Enc: encs[rng.Intn(len(encs))]}
+		ks := &rdbgen.KeySpec{DB: uint32(db), Key: []byte(fmt.Sprintf("%s%s%d:%s", prefix, tag, i, rng.Alpha(3, "abcxyz"))), Val: v, Enc: encs[rng.Intn(len(encs))]}
 		if rng.Chance(1, 5) {
 			ks.ExpireMs = uint64(time.Now().UnixNano()/1e6) + 86400000*30
 		}
 		if c.Scripts > 0 && i%(c.Keys/c.Scripts+1) == 1 {
-			f.Items = append(f.Items, rdbgen.Item{Meta: &rdbgen.Meta{Kind: "lua", B: []byte(fmt.Sprintf("return %d", i))}})
+			f.Items = append(f.Items, rdbgen.Item{Meta: &rdbgen.Meta{Kind: "lua", B: []byte(fmt.Sprintf("return %d -- %s", i, tag))}})
 		}
 		f.Items = append(f.Items, rdbgen.Item{Key: ks})
 	}
@@ -84,7 +85,17 @@ func genC07file(rng *prng.R, c *c07case) ([]byte, []rdbgen.Record) {
 }
 
 func runC07(r resIface, c *c07case, rng *prng.R, scratch string) {
-	data, recs := genC07file(rng, c)
+	data, recs := genC07file(rng, c, "")
+	inputs := [][]byte{data}
+	if c.Mode == "restore" && c.Index%3 == 1 {
+		// restore mode takes several input files and loads source.rdb.parallel of them at the same time
+		for q := 1; q <= rng.Pick(1, 2); q++ {
+			d2, r2 := genC07file(rng.Split(uint64(50+q)), c, string(rune('A'+q)))
+			inputs = append(inputs, d2)
+			recs = append(recs, r2...)
+		}
+		c.Inputs = len(inputs)
+	}
 	ref := &reffilter.Config{}
 	conf.Options = conf.Configuration{Parallel: c.Parallel, TargetDB: c.TargetDB, TargetType: conf.RedisTypeStandalone, KeyExists: "none", BigKeyThreshold: 50 << 20,
 		TargetVersion: "5.0.7", TargetReplace: true, Metric: true, TargetAuthType: "auth", TargetPasswordRaw: c07sentinel, HttpProfile: -1, SourceRdbParallel: 1, Id: "verif"}
@@ -161,10 +172,18 @@ func runC07(r resIface, c *c07case, rng *prng.R, scratch string) {
 			close(returned)
 		}()
 	default:
-		in := filepath.Join(scratch, fmt.Sprintf("c07-%d.rdb", c.Index))
-		ioutil.WriteFile(in, data, 0644)
-		defer os.Remove(in)
-		conf.Options.SourceRdbInput = []string{in}
+		var ins []string
+		for q, d := range inputs {
+			in := filepath.Join(scratch, fmt.Sprintf("c07-%d-%d.rdb", c.Index, q))
+			ioutil.WriteFile(in, d, 0644)
+			defer os.Remove(in)
+			ins = append(ins, in)
+		}
+		conf.Options.SourceRdbInput = ins
+		if len(ins) > 1 {
+			conf.Options.SourceRdbParallel = rng.Pick(1, 2, 3)
+			r.Count("restore_runs_with_several_input_files", 1)
+		}
 		conf.Options.TargetAddressList = []string{tcp.Addr}
 		conf.Options.Type = conf.TypeRestore
 		go func() {
